@@ -139,11 +139,17 @@ class User(callbacks.Plugin):
         except KeyError:
             pass
         user = ircdb.users.newUser()
-        user.name = name
-        user.setPassword(password)
-        if addHostmask:
-            user.addHostmask(msg.prefix)
-        ircdb.users.setUser(user)
+        try:
+            user.name = name
+            user.setPassword(password)
+            if addHostmask:
+                user.addHostmask(msg.prefix)
+            ircdb.users.setUser(user)
+        except Exception:
+            # Don't leave a half-made account (holding the name, and a
+            # hostmask that setUser has just refused) behind.
+            ircdb.users.delUser(user.id)
+            raise
         irc.replySuccess()
     register = wrap(register, ['private', 'something', 'something'])
 
